@@ -203,6 +203,10 @@ class Interp:
         self.globals = {}         # module-level variables
         self.region_log = []
         self.trips = {}           # id(loop) -> [trip counts per execution]
+        # undefined values: raise at the read (default) or propagate them
+        # as a taint and raise only when control flow / a subscript
+        # depends on them (used by C09/C13)
+        self.propagate_poison = False
 
     # ------------------------------------------------------------------
     # storage access
@@ -217,7 +221,7 @@ class Interp:
         val = root.data[rfl]
         if self.tracing:
             self.events.append(("R", root.id, rfl, self.stmt, self.loops))
-        if val is POISON:
+        if val is POISON and not self.propagate_poison:
             raise PoisonRead(f"read of undefined {root.name}[{rfl}]")
         return val
 
@@ -225,7 +229,13 @@ class Interp:
         root = arr.root
         rfl = flat if arr.fmap is None else arr.fmap[flat]
         if val is POISON:
-            raise PoisonRead(f"store of undefined value to {root.name}")
+            if not self.propagate_poison:
+                raise PoisonRead(f"store of undefined value to {root.name}")
+            root.data[rfl] = POISON
+            if self.tracing:
+                self.events.append(("W", root.id, rfl, self.stmt,
+                                    self.loops))
+            return
         typ = arr.typ
         if typ == "int":
             if isinstance(val, bool) or not isinstance(val, int):
@@ -418,6 +428,8 @@ class Interp:
     # ------------------------------------------------------------------
     def eval_int(self, node, frame):
         val = self.eval(node, frame)
+        if val is POISON:
+            raise PoisonRead("subscript / bound depends on undefined value")
         if isinstance(val, bool) or not isinstance(val, int):
             raise InterpError(f"expected integer, got {val!r}")
         return val
@@ -495,14 +507,20 @@ class Interp:
                     raise InterpError(
                         f"non-conformable shapes {shape} vs {val.shape}")
         if shape is None:
+            for val in vals:
+                if val is POISON:
+                    return POISON
             return fun(*vals)
         size = 1
         for ext in shape:
             size *= ext
         out = []
         for pos in range(size):
-            out.append(fun(*[v.data[pos] if isinstance(v, AVal) else v
-                             for v in vals]))
+            args = [v.data[pos] if isinstance(v, AVal) else v for v in vals]
+            if any(a is POISON for a in args):
+                out.append(POISON)
+            else:
+                out.append(fun(*args))
         return AVal(shape, out)
 
     def e_binary(self, node, frame):
@@ -743,6 +761,11 @@ class Interp:
                 mask = [mask] * len(arr.data)
         if mask is None:
             mask = [True] * len(arr.data)
+        if any(v is POISON for v in arr.data) or \
+                any(m is POISON for m in mask):
+            if dim is None or len(arr.shape) == 1:
+                return POISON
+            raise Unsupported("undefined value in dim reduction")
         if dim is None or len(arr.shape) == 1 and dim == 1:
             items = [v for v, m in zip(arr.data, mask) if m]
             if not items:
@@ -946,6 +969,9 @@ class Interp:
         return self.call_routine(callee, actuals, want_result)
 
     def temp_from_value(self, val):
+        if val is POISON or (isinstance(val, AVal) and
+                             any(v is POISON for v in val.data)):
+            raise Unsupported("undefined value as actual argument")
         if isinstance(val, AVal):
             typ = self.typ_of_value(val.data[0]) if val.data else "real"
             tmp = Arr(typ, [(1, e) for e in val.shape], data=val.data,
@@ -1160,6 +1186,8 @@ class Interp:
                 self.stmt = node
                 self.loops = saved_loops
                 cond = self.eval(node.condition, frame)
+                if cond is POISON:
+                    raise PoisonRead("WHILE condition is undefined")
                 if not isinstance(cond, bool):
                     raise InterpError("non-logical while condition")
                 if not cond:
@@ -1180,6 +1208,8 @@ class Interp:
 
     def x_if(self, node, frame):
         cond = self.eval(node.condition, frame)
+        if cond is POISON:
+            raise PoisonRead("IF condition depends on undefined value")
         if not isinstance(cond, bool):
             raise InterpError(f"non-logical IF condition {cond!r}")
         if cond:
